@@ -2,7 +2,7 @@
 # developer tool: behaviour-preserving refactors must keep every check silent.  Works in N scratch worktrees of /repo's
 # HEAD (removed at the end); /repo itself is never patched.   usage: refactors.sh [glob] [workers]
 PAT="${1:-*}"; N="${2:-8}"
-ALL="C01 C02 C03 C04 C05 C06 C07 C08 C09 C10 C11 C12 C13 C14 C15 C16 C17 C18 C19"
+ALL="${CHECKS:-C01 C02 C03 C04 C05 C06 C07 C08 C09 C10 C11 C12 C13 C14 C15 C16 C17 C18 C19}"
 MX=/tmp/plvrf; rm -rf $MX; mkdir -p $MX; git -C /repo worktree prune
 ids=(); for p in /verif/refactors/*.patch.diff; do id=$(basename $p .patch.diff); [[ "$id" == $PAT ]] && ids+=("$id"); done
 worker() {
